@@ -464,6 +464,12 @@ def trace_configs(tier):
         for exact in ((True,) if q and "greedy" in drv else (True, False)):
             L.append(dict(kind=kind, n=n, K=K, driver=drv, rows=rows, steps=steps // 2, exact=exact, init="random",
                           jump_every=0 if "greedy" in drv else 29))
+    # SMALL graphs next to a large k (the chosen segment ends often close the loop early: NeuOpt's "allow the first node again"
+    # branch, the sampler's early stop), more rows
+    for (kind, n, K, drv) in [("kopt", 8, 4, "neuopt:sampling"), ("kopt", 7, 5, "neuopt:sampling"), ("kopt", 7, 5, "sampler"),
+                              ("kopt", 6, 3, "neuopt:sampling")]:
+        L.append(dict(kind=kind, n=n, K=K, driver=drv, rows=4 * rows, steps=60 if q else 300, exact=True, init="random",
+                      jump_every=0))
     # batch of one row (single-instance inference)
     for (kind, n, K, drv) in [("kopt", 10, 2, "sampler"), ("kopt", 10, 2, "dact:sampling"), ("kopt", 10, 3, "sampler"),
                               ("kopt", 10, 4, "neuopt:sampling"), ("pdp", 11, 0, "sampler"),
